@@ -147,6 +147,46 @@ func c06Pure(c *engine.Ctx) {
 		c.Check(len(globals) == 0, "C06.R6", name+"/no-package-state", fn.Pos(), "key derivation must depend on its arguments only; it touches package-level variables %v", globals)
 	}
 	c.Floor("C06.R6", 10, n)
+	// the bind message handed to the caller must be the caller's own bytes: it
+	// is kept until the bind request was answered (and retried), so it may
+	// alias neither package state nor a pooled buffer the function gives back
+	if fn := c.MustFunc("C06.R6", "crypto", "EncryptBindMessage"); fn != nil {
+		var puts []ssa.Value
+		for _, call := range engine.Calls(fn) {
+			if engine.CalleeID(call.Common()) == "(*bin.Pool).Put" {
+				puts = append(puts, engine.Unwrap(engine.Args(call.Common())[1]))
+			}
+		}
+		m := 0
+		for _, r := range engine.SuccessReturns(fn) {
+			m++
+			var bad []string
+			engine.WalkBack(r.Results[0], func(v ssa.Value) bool {
+				if g, ok := v.(*ssa.Global); ok {
+					bad = append(bad, "package variable "+g.Name())
+				}
+				if call, ok := v.(*ssa.Call); ok {
+					switch engine.CalleeID(call.Common()) {
+					case "builtin.append":
+						// append(nil-or-fresh, x...) copies x: stop at a copy into a fresh slice
+						if engine.IsNil(call.Common().Args[0]) {
+							return false
+						}
+					case "(*bin.Pool).Get":
+						for _, p := range puts {
+							if p == ssa.Value(call) {
+								bad = append(bad, "pooled buffer released at return")
+							}
+						}
+						return false
+					}
+				}
+				return true
+			})
+			c.Check(len(bad) == 0, "C06.R6", "EncryptBindMessage/result-owned-by-caller#"+ordinal(fn, r), r.Pos(), "the returned bind message aliases %v: the next call overwrites it while the caller still uses it", bad)
+		}
+		c.Floor("C06.R6b", 1, m)
+	}
 }
 
 func normCopy(cp engine.Copy) string {
@@ -272,19 +312,25 @@ func c06Wiring(c *engine.Ctx) {
 		if strings.HasPrefix(name, "sha1") {
 			want = "crypto/sha1.New"
 		}
-		for _, r := range engine.Returns(fn) {
+		// every return (a second "fast" path must be the same function of the
+		// same inputs, which only the one checked hash guarantees)
+		rets := engine.Returns(fn)
+		ok = len(rets) > 0
+		for _, r := range rets {
+			good := false
 			call := engine.CallOf(r.Results[0])
 			if call != nil && call.Common().IsInvoke() && call.Common().Method.Name() == "Sum" {
 				h := engine.CallOf(call.Common().Value)
 				if h != nil && engine.CalleeID(h.Common()) == want {
-					ok = true
+					good = true
 					for _, w := range engine.Calls(fn) {
 						if w.Common().IsInvoke() && w.Common().Method.Name() == "Write" && w.Common().Value != ssa.Value(h) {
-							ok = false
+							good = false
 						}
 					}
 				}
 			}
+			ok = ok && good
 		}
 		c.Check(ok, "C06.R2", name+"/hash", fn.Pos(), "%s must return Sum of the %s hash that received the inputs", name, want)
 	}
